@@ -1010,7 +1010,7 @@ fn f32_sweep(r: &Runner, bits: usize) {
                 let v: u128 = if ex >= 0 { mant << ex } else if -ex > 40 { 0 } else { ((mant << 1) + (1u128 << (-ex))) >> (-ex + 1) };
                 if bits >= 128 || v < (1u128 << bits) { Ok(v) } else { Err(2) }
             };
-            let good = sweep_one(bits, f, &exp);
+            let good = vharness::runner::guarded(|| sweep_one(bits, f, &exp)).unwrap_or(false);
             n += 1;
             if exp.is_err() || f.fract() != 0.0 {
                 nt += 1;
